@@ -1,0 +1,40 @@
+// Verification hooks. Compiled only with `--cfg oxmpl_verif`; never part of a normal build.
+//
+// A per-thread iteration budget lets an external harness stop a planner after an exact
+// number of main-loop iterations (the planner then answers exactly as it does on a timeout),
+// so that runs can be compared iteration by iteration independently of the wall clock.
+
+use std::cell::Cell;
+
+thread_local! {
+    static BUDGET: Cell<Option<u64>> = const { Cell::new(None) };
+    static TICKS: Cell<u64> = const { Cell::new(0) };
+}
+
+/// Sets the number of loop iterations the next planner calls on this thread may start.
+/// `None` removes the limit.
+pub fn set_budget(budget: Option<u64>) {
+    BUDGET.with(|b| b.set(budget));
+}
+
+/// Number of loop-top ticks seen on this thread since the last `reset_ticks`.
+pub fn ticks() -> u64 {
+    TICKS.with(|t| t.get())
+}
+
+pub fn reset_ticks() {
+    TICKS.with(|t| t.set(0));
+}
+
+/// Called at the top of every planner loop. Returns `true` when the budget is exhausted.
+pub fn tick() -> bool {
+    TICKS.with(|t| t.set(t.get() + 1));
+    BUDGET.with(|b| match b.get() {
+        None => false,
+        Some(0) => true,
+        Some(n) => {
+            b.set(Some(n - 1));
+            false
+        }
+    })
+}
